@@ -776,7 +776,11 @@ func makeFixture(m *genMake, keys map[string]any) []byte {
 		if err != nil {
 			panic(err)
 		}
-		pem.Encode(&bb, &pem.Block{Type: "CERTIFICATE REQUEST", Bytes: der})
+		label := "CERTIFICATE REQUEST"
+		if m.Variant == "legacy-label" {
+			label = "NEW CERTIFICATE REQUEST" // what `openssl req -newhdr` and older tools write (RFC 7468, section 7)
+		}
+		pem.Encode(&bb, &pem.Block{Type: label, Bytes: der})
 	default: // "key"
 		pem.Encode(&bb, &pem.Block{Type: "PRIVATE KEY", Bytes: marshalPKCS8Variant(key, m.Variant)})
 	}
